@@ -33,10 +33,14 @@ typedef struct {
     long max_report;
     FILE *tlclog;
     FILE *samples;
+    FILE *transcript;           /* C18: every observable of every call, for cross-build comparison */
+    bool tr_on;
 } cfg_t;
 
 static shared_t *S;
 static cfg_t G;
+#define TR(...) do { if (G.transcript && G.tr_on) fprintf(G.transcript, __VA_ARGS__); } while (0)
+static inline void tr_hex(const uint8_t *b, size_t n) { if (G.transcript && G.tr_on) for (size_t i = 0; i < n; i++) fprintf(G.transcript, "%02x", b[i]); }
 static const char *g_line;
 
 volatile sig_atomic_t verif_in_call = 0;
@@ -75,7 +79,10 @@ static int run_child(char **batch, long from, long to, line_fn fn, bool confirm)
         for (long i = from; i < to; i++) {
             S->idx = i; g_line = batch[i];
             if (!confirm) S->lines++;
+            G.tr_on = !confirm;
+            TR("# %s\n", batch[i]);
             long v = fn(batch[i]);
+            G.tr_on = false;
             if (v > 0 && !confirm) {
                 /* deterministic library: a real violation repeats */
                 shared_t keep = *S; long mr = G.max_report; G.max_report = 0;
@@ -147,6 +154,7 @@ static void batch_run(FILE *in, line_fn fn)
     free(batch); free(line);
     if (G.tlclog) fclose(G.tlclog);
     if (G.samples) fclose(G.samples);
+    if (G.transcript) fclose(G.transcript);
 }
 
 static int batch_args(int argc, char **argv, const char **summary, const char **replay)
@@ -161,6 +169,7 @@ static int batch_args(int argc, char **argv, const char **summary, const char **
         else if (!strcmp(argv[i], "--summary") && i + 1 < argc) *summary = argv[++i];
         else if (!strcmp(argv[i], "--replay") && i + 1 < argc) *replay = argv[++i];
         else if (!strcmp(argv[i], "--samples") && i + 1 < argc) G.samples = fopen(argv[++i], "w");
+        else if (!strcmp(argv[i], "--transcript") && i + 1 < argc) G.transcript = fopen(argv[++i], "w");
         else if (!strcmp(argv[i], "--max-report") && i + 1 < argc) G.max_report = atol(argv[++i]);
         else { fprintf(stderr, "usage: %s --prop Cnn [--memprop Cnn] --outdir DIR [--tlclog F] [--summary F] [--samples F] [--replay FILE]\n", argv[0]); return 2; }
     }
